@@ -95,3 +95,88 @@ class RuleOrder(Harness):
 
 
 HARNESSES = [RuleOrder()]
+
+
+def rotate_case(s, e, k, n, case):
+    """coordinates of gene [s,e) after moving the origin to old position k; case: 'before' (k <= s), 'after' (k >= e),
+    'cut' (s < k < e). Returns (constraint, parts-in-biological-order)"""
+    if case == "before":
+        return k <= s, [(s - k, e - k)]
+    if case == "after":
+        return k >= e, [(s - k + n, e - k + n)]
+    return L.And(s < k, k < e), [(s - k + n, n), (0, e - k)]
+
+
+class Rotation(Harness):
+    pid, name = "C07", "rotation"
+    functions = [CP + "find_protoclusters", CP + "merge_over_origin", CP + "_extend_area_location",
+                 "antismash.common.secmet.record:Record.connect_locations", "antismash.common.secmet.record:Record.extend_location"]
+    bound = ("circular record, G = 2 anchoring genes of one rule, origin moved to any position k in [0, n) (before, after or cutting "
+             "through either gene: the cut gene becomes a two-part origin-spanning gene, built by the specification of rotation), "
+             "symbolic coordinates, cutoff and record length, neighbourhood 0; both records go through find_protoclusters in one path")
+    outside = "G > 2; candidate cluster / region stages (covered per stage by C05/C06 on origin-spanning inputs); neighbourhood > 0"
+    task_paths = 100
+
+    def variants(self, tier):
+        out = []
+        for c0 in ("before", "after", "cut"):
+            for c1 in ("before", "after", "cut"):
+                if (c0, c1) not in (("before", "before"), ("after", "before"), ("after", "after"), ("cut", "before"), ("after", "cut")):
+                    continue   # the others contradict g0 lying before g1
+                out.append({"cases": [c0, c1]})
+        return out
+
+    def vars(self, var):
+        d = {"n": "int", "k": "int", "cutoff": "int"}
+        d.update(shape_vars("g0", "s"))
+        d.update(shape_vars("g1", "s"))
+        return d
+
+    def rotated(self, var, v):
+        cons, parts = [], []
+        for i in range(2):
+            c, p = rotate_case(v["g%ds0" % i], v["g%de0" % i], v["k"], v["n"], var["cases"][i])
+            cons.append(c)
+            parts.append(p)
+        return L.And(cons), parts
+
+    def pre(self, var, v):
+        n = v["n"]
+        cons, _ = self.rotated(var, v)
+        return L.And(shape_pre("g0", "s", v, n), shape_pre("g1", "s", v, n), v["g0e0"] <= v["g1s0"],
+                     0 <= v["k"], v["k"] < n, v["cutoff"] >= 1, v["cutoff"] <= 3 * n, cons)
+
+    def detect(self, n, gene_parts, cutoff):
+        from .c03 import mkrule
+        from .common import mkloc
+        rec = mkrecord(n, True)
+        for i, parts in enumerate(gene_parts):
+            rec.add_cds_feature(DummyCDS(location=mkloc(parts), locus_tag="g%d" % i, translation="A"))
+        doms = defaultdict(lambda: defaultdict(set))
+        protos = cp.find_protoclusters(rec, {"r1": {"g0", "g1"}}, {"r1": mkrule("r1", cutoff, 0)}, {}, doms)
+        return [canon_loc(p.core_location) for p in protos]
+
+    def run(self, var, v):
+        _, rot = self.rotated(var, v)
+        orig = [[(v["g%ds0" % i], v["g%de0" % i])] for i in range(2)]
+        return {"original": self.detect(v["n"], orig, v["cutoff"]), "rotated": self.detect(v["n"], rot, v["cutoff"])}
+
+    def post(self, var, v, out):
+        if is_raised(out):
+            return [("no_raise", False)]
+        n = v["n"]
+        _, rot = self.rotated(var, v)
+        orig = [[(v["g%ds0" % i], v["g%de0" % i])] for i in range(2)]
+
+        def together(cores, genes):
+            return L.Or([L.And(contains_parts(c, genes[0]), contains_parts(c, genes[1])) for c in cores])
+
+        def small(cores):
+            return L.And([2 * parts_len(c) < n for c in cores])
+        guard = L.And(small(out["original"]), small(out["rotated"]))
+        return [("same_protoclusters_same_member_genes_after_rotation",
+                 L.Implies(guard, L.And(L.Iff(together(out["original"], orig), together(out["rotated"], rot)),
+                                        len(out["original"]) == len(out["rotated"]))))]
+
+
+HARNESSES = [RuleOrder(), Rotation()]
